@@ -88,33 +88,43 @@ theorem normal_mean_var (μ σ : ℝ) :
 
 example : Normal.pdf RF 0 1 0 = gaussianPDFReal 0 (sqNN 1) 0 := normal_pdf_eq_gaussianPDFReal erf 0 1 0 one_pos
 
-/-! ## Gamma, Exponential, ChiSquared -/
+/-! ## Gamma, Exponential, ChiSquared
 
-/-- **Gamma density = Mathlib's `gammaPDFReal α β`** (shape `α`, rate `β`) at every `x ≠ 0`.  (At `x = 0` the code returns
-`0`; Mathlib's convention there is `β^α/Γ(α) · 0^(α-1)`, which is `β` for `α = 1`: a null set.) -/
-theorem gamma_pdf_eq_gammaPDFReal (α β x : ℝ) (hx : x ≠ 0) :
-    Gamma.pdf RF α β x = gammaPDFReal α β x := by
-  simp only [Gamma.pdf, gammaPDFReal, realFns, transc_pow, transc_exp]
+Since F47–F49 the Gamma, Beta and ChiSquared densities are evaluated in log space, `exp (… - ln_gamma …)`.  As for Poisson and
+Binomial the special function is an arbitrary `F : Fns ℝ` with the explicit hypothesis `LnGammaOK F`
+(`exp (F.lnGamma z) = Γ z` for `z > 0`); `realFns` satisfies it (`realFns_lnGammaOK`). -/
+
+/-- **Gamma density = Mathlib's `gammaPDFReal α β`** (shape `α`, rate `β`) at every `x ≠ 0`, given `exp (lnΓ z) = Γ z`.  (At
+`x = 0` the code returns `0`; Mathlib's convention there is `β^α/Γ(α) · 0^(α-1)`, which is `β` for `α = 1`: a null set.) -/
+theorem gamma_pdf_eq_gammaPDFReal (F : Fns ℝ) (hG : LnGammaOK F) (α β x : ℝ) (hα : 0 < α) (hβ : 0 < β) (hx : x ≠ 0) :
+    Gamma.pdf F α β x = gammaPDFReal α β x := by
+  simp only [Gamma.pdf, gammaPDFReal, transc_ln, transc_exp]
   rcases lt_or_gt_of_ne hx with h | h
   · rw [if_pos h.le, if_neg (not_le.mpr h)]
-  · rw [if_neg (not_le.mpr h), if_pos h.le, neg_mul]
+  · rw [if_neg (not_le.mpr h), if_pos h.le, Real.exp_sub, Real.exp_add, Real.exp_sub, hG α hα, exp_mul_log α β hβ,
+      exp_mul_log (α - 1) x h, Real.exp_neg]
+    ring
 
 theorem gamma_pdf_zero_of_nonpos (F : Fns ℝ) (α β x : ℝ) (hx : x ≤ 0) : Gamma.pdf F α β x = 0 := by
   simp [Gamma.pdf, hx]
 
-theorem gamma_pdf_nonneg (α β x : ℝ) (hα : 0 < α) (hβ : 0 < β) : 0 ≤ Gamma.pdf RF α β x := by
-  by_cases hx : x = 0
-  · rw [hx, gamma_pdf_zero_of_nonpos _ _ _ _ le_rfl]
-  · rw [gamma_pdf_eq_gammaPDFReal erf α β x hx]; exact gammaPDFReal_nonneg hα hβ x
+theorem gamma_pdf_nonneg (F : Fns ℝ) (α β x : ℝ) : 0 ≤ Gamma.pdf F α β x := by
+  simp only [Gamma.pdf, transc_exp]
+  split
+  · exact le_rfl
+  · exact (Real.exp_pos _).le
 
 /-- Total mass one: the code's density agrees with Mathlib's off the null set `{0}`. -/
-theorem gamma_pdf_lintegral_eq_one (α β : ℝ) (hα : 0 < α) (hβ : 0 < β) :
-    ∫⁻ x, ENNReal.ofReal (Gamma.pdf RF α β x) = 1 := by
+theorem gamma_pdf_lintegral_eq_one (F : Fns ℝ) (hG : LnGammaOK F) (α β : ℝ) (hα : 0 < α) (hβ : 0 < β) :
+    ∫⁻ x, ENNReal.ofReal (Gamma.pdf F α β x) = 1 := by
   rw [← lintegral_gammaPDF_eq_one hα hβ]
   apply MeasureTheory.lintegral_congr_ae
   have : ∀ᵐ x : ℝ, x ≠ 0 := MeasureTheory.compl_mem_ae_iff.mpr (MeasureTheory.measure_singleton 0)
   filter_upwards [this] with x hx
-  rw [gamma_pdf_eq_gammaPDFReal erf α β x hx, gammaPDF]
+  rw [gamma_pdf_eq_gammaPDFReal F hG α β x hα hβ hx, gammaPDF]
+
+example : ∫⁻ x, ENNReal.ofReal (Gamma.pdf RF 2 3 x) = 1 :=
+  gamma_pdf_lintegral_eq_one RF (realFns_lnGammaOK erf) 2 3 (by norm_num) (by norm_num)
 
 /-- **Exponential density = Mathlib's `exponentialPDFReal λ`** at every `x`. -/
 theorem exponential_pdf_eq_exponentialPDFReal (l x : ℝ) :
@@ -133,54 +143,75 @@ theorem exponential_pdf_lintegral_eq_one (l : ℝ) (hl : 0 < l) :
   simp_rw [exponential_pdf_eq_exponentialPDFReal]
   exact lintegral_exponentialPDF_eq_one hl
 
-/-- **ChiSquared(k) density = Gamma(k/2, 1/2) density** (`gammaPDFReal (k/2) (1/2)`) at every `x`, for every `k ≥ 1`. -/
-theorem chiSquared_pdf_eq_gammaPDFReal (k : ℕ) (hk : 0 < k) (x : ℝ) :
-    ChiSquared.pdf RF k x = gammaPDFReal ((k : ℝ) / 2) (1 / 2) x := by
-  simp only [ChiSquared.pdf, gammaPDFReal, realFns, transc_pow, transc_exp, two_real]
-  have hpow : ((1 : ℝ) / 2) ^ ((k : ℝ) / 2) = 1 / (2 : ℝ) ^ ((k : ℝ) / 2) := by
-    rw [one_div, Real.inv_rpow (by norm_num), one_div]
-  have hform : 1 / ((2 : ℝ) ^ ((k : ℝ) / 2) * Real.Gamma ((k : ℝ) / 2)) * x ^ ((k : ℝ) / 2 - 1) * Real.exp (-x / 2) =
-      (1 / 2) ^ ((k : ℝ) / 2) / Real.Gamma ((k : ℝ) / 2) * x ^ ((k : ℝ) / 2 - 1) * Real.exp (-(1 / 2 * x)) := by
-    rw [hpow]
-    have : -x / 2 = -(1 / 2 * x) := by ring
-    rw [this, div_div]
-  by_cases hneg : x < 0
-  · rw [if_pos (Or.inr hneg), if_neg (not_le.mpr hneg)]
-  · have hx0 : 0 ≤ x := not_lt.mp hneg
-    rw [if_pos hx0]
-    by_cases hc : k = 1 ∧ x ≤ 0
-    · rw [if_pos (Or.inl hc)]
-      obtain ⟨hk1, hx⟩ := hc
-      have : x = 0 := le_antisymm hx hx0
-      subst this; subst hk1
-      rw [Real.zero_rpow (by norm_num)]; simp
-    · rw [if_neg (by rintro (h | h); exact hc h; exact hneg h)]
-      exact hform
+/-- **ChiSquared(k) density = Gamma(k/2, 1/2) density** (`gammaPDFReal (k/2) (1/2)`) at every `x ≠ 0`, for every `k ≥ 1`, given
+`exp (lnΓ z) = Γ z`.  (At `x = 0`: `k = 1` gives `0` on both sides (`chiSquared_pdf_zero_of_neg` / the guard), `k = 2` gives `½` on
+both sides (`chiSquared_pdf_two_zero`); for `k > 2` the code computes `exp (c · ln 0) = exp (-∞) = 0` in IEEE arithmetic, while
+`Real.log 0 = 0` is a junk value over `ℝ` — that single point is covered by the bit-exact tie and the oracle, not by a theorem.) -/
+theorem chiSquared_pdf_eq_gammaPDFReal (F : Fns ℝ) (hG : LnGammaOK F) (k : ℕ) (hk : 0 < k) (x : ℝ) (hx : x ≠ 0) :
+    ChiSquared.pdf F k x = gammaPDFReal ((k : ℝ) / 2) (1 / 2) x := by
+  simp only [ChiSquared.pdf, gammaPDFReal, transc_ln, transc_exp, two_real, xlogy_real]
+  have hk2 : (0 : ℝ) < (k : ℝ) / 2 := by positivity
+  have hpow : ((1 : ℝ) / 2) ^ ((k : ℝ) / 2) = ((2 : ℝ) ^ ((k : ℝ) / 2))⁻¹ := by
+    rw [one_div, Real.inv_rpow (by norm_num)]
+  rcases lt_or_gt_of_ne hx with h | h
+  · rw [if_pos (Or.inr h), if_neg (not_le.mpr h)]
+  · rw [if_neg (by rintro (⟨_, h'⟩ | h') <;> linarith), if_pos h.le, Real.exp_sub, Real.exp_sub, Real.exp_sub,
+      hG _ hk2, exp_mul_log _ x h, exp_mul_log _ 2 (by norm_num), hpow]
+    have : Real.exp (-(1 / 2 * x)) = (Real.exp (x / 2))⁻¹ := by rw [← Real.exp_neg]; congr 1; ring
+    rw [this]
+    ring
 
-theorem chiSquared_pdf_nonneg (k : ℕ) (hk : 0 < k) (x : ℝ) : 0 ≤ ChiSquared.pdf RF k x := by
-  rw [chiSquared_pdf_eq_gammaPDFReal erf k hk]
-  exact gammaPDFReal_nonneg (by positivity) (by norm_num) x
+/-- `k = 2` at the boundary point: both the code and the Gamma(1, ½) density give `½`. -/
+theorem chiSquared_pdf_two_zero (F : Fns ℝ) (hG : LnGammaOK F) :
+    ChiSquared.pdf F 2 0 = gammaPDFReal ((2 : ℕ) / 2) (1 / 2) 0 := by
+  have h1 : F.lnGamma 1 = 0 := by
+    have := hG 1 one_pos
+    rw [Real.Gamma_one] at this
+    have h := congrArg Real.log this
+    rwa [Real.log_exp, Real.log_one] at h
+  simp only [ChiSquared.pdf, gammaPDFReal, transc_ln, transc_exp, two_real, xlogy_real]
+  norm_num [h1, Real.Gamma_one, Real.exp_neg, Real.exp_log]
 
-theorem chiSquared_pdf_lintegral_eq_one (k : ℕ) (hk : 0 < k) :
-    ∫⁻ x, ENNReal.ofReal (ChiSquared.pdf RF k x) = 1 := by
-  simp_rw [chiSquared_pdf_eq_gammaPDFReal erf k hk]
-  exact lintegral_gammaPDF_eq_one (by positivity) (by norm_num)
+theorem chiSquared_pdf_nonneg (F : Fns ℝ) (k : ℕ) (x : ℝ) : 0 ≤ ChiSquared.pdf F k x := by
+  simp only [ChiSquared.pdf, transc_exp]
+  split
+  · exact le_rfl
+  · exact (Real.exp_pos _).le
+
+theorem chiSquared_pdf_lintegral_eq_one (F : Fns ℝ) (hG : LnGammaOK F) (k : ℕ) (hk : 0 < k) :
+    ∫⁻ x, ENNReal.ofReal (ChiSquared.pdf F k x) = 1 := by
+  rw [← lintegral_gammaPDF_eq_one (a := (k : ℝ) / 2) (r := 1 / 2) (by positivity) (by norm_num)]
+  apply MeasureTheory.lintegral_congr_ae
+  have : ∀ᵐ x : ℝ, x ≠ 0 := MeasureTheory.compl_mem_ae_iff.mpr (MeasureTheory.measure_singleton 0)
+  filter_upwards [this] with x hx
+  rw [chiSquared_pdf_eq_gammaPDFReal F hG k hk x hx, gammaPDF]
 
 theorem chiSquared_pdf_zero_of_neg (F : Fns ℝ) (k : ℕ) (x : ℝ) (hx : x < 0) : ChiSquared.pdf F k x = 0 := by
   simp [ChiSquared.pdf, hx]
+
+/-- `dof = 1`: the density is `0` at `x = 0` as well (open support). -/
+theorem chiSquared_pdf_one_zero (F : Fns ℝ) : ChiSquared.pdf F 1 0 = 0 := by
+  simp [ChiSquared.pdf]
 
 /-! ## Beta -/
 
 /-- `functions::beta` with the ideal `Γ` is Mathlib's normalising constant of the Beta law. -/
 theorem betaOf_eq (a b : ℝ) : betaOf RF a b = ProbabilityTheory.beta a b := rfl
 
-/-- **Beta density = Mathlib's `betaPDFReal α β`** at every `x` other than the two end points of the support.  (At `0` and
-`1` the code evaluates the formula, `0^(α-1)` etc.; Mathlib's convention is `0` there: a null set.) -/
-theorem beta_pdf_eq_betaPDFReal (α β x : ℝ) (h0 : x ≠ 0) (h1 : x ≠ 1) :
-    Beta.pdf RF α β x = betaPDFReal α β x := by
-  simp only [Beta.pdf, betaPDFReal, betaOf_eq, transc_pow]
+/-- **Beta density = Mathlib's `betaPDFReal α β`** at every `x` other than the two end points of the support, given
+`exp (lnΓ z) = Γ z`.  (At `0` and `1` the code evaluates `exp (c · ln 0)`; Mathlib's convention is `0` there: a null set.) -/
+theorem beta_pdf_eq_betaPDFReal (F : Fns ℝ) (hG : LnGammaOK F) (α β x : ℝ) (hα : 0 < α) (hβ : 0 < β)
+    (h0 : x ≠ 0) (h1 : x ≠ 1) :
+    Beta.pdf F α β x = betaPDFReal α β x := by
+  simp only [Beta.pdf, betaPDFReal, ProbabilityTheory.beta, transc_exp, xlogy_real]
   by_cases h : 0 < x ∧ x < 1
-  · rw [if_pos ⟨h.1.le, h.2.le⟩, if_pos h]; ring
+  · have hx1 : 0 < 1 - x := by linarith [h.2]
+    have g1 := (Real.Gamma_pos_of_pos hα).ne'
+    have g2 := (Real.Gamma_pos_of_pos hβ).ne'
+    have g3 := (Real.Gamma_pos_of_pos (add_pos hα hβ)).ne'
+    rw [if_pos ⟨h.1.le, h.2.le⟩, if_pos h, Real.exp_sub, Real.exp_sub, Real.exp_add, Real.exp_add, hG α hα, hG β hβ,
+      hG (α + β) (add_pos hα hβ), exp_mul_log _ x h.1, exp_mul_log _ (1 - x) hx1]
+    field_simp
   · rw [if_neg h, if_neg]
     rintro ⟨ha, hb⟩
     exact h ⟨lt_of_le_of_ne ha (Ne.symm h0), lt_of_le_of_ne hb h1⟩
@@ -191,23 +222,23 @@ theorem beta_pdf_zero_outside (F : Fns ℝ) (α β x : ℝ) (hx : x < 0 ∨ 1 < 
   rintro ⟨ha, hb⟩
   rcases hx with h | h <;> linarith
 
-theorem beta_pdf_nonneg (α β x : ℝ) (hα : 0 < α) (hβ : 0 < β) : 0 ≤ Beta.pdf RF α β x := by
-  simp only [Beta.pdf, betaOf_eq, transc_pow]
+theorem beta_pdf_nonneg (F : Fns ℝ) (α β x : ℝ) : 0 ≤ Beta.pdf F α β x := by
+  simp only [Beta.pdf, transc_exp]
   split
-  · next h =>
-    apply div_nonneg
-    · exact mul_nonneg (Real.rpow_nonneg h.1 _) (Real.rpow_nonneg (by linarith [h.2]) _)
-    · exact (beta_pos hα hβ).le
+  · exact (Real.exp_pos _).le
   · exact le_rfl
 
-theorem beta_pdf_lintegral_eq_one (α β : ℝ) (hα : 0 < α) (hβ : 0 < β) :
-    ∫⁻ x, ENNReal.ofReal (Beta.pdf RF α β x) = 1 := by
+theorem beta_pdf_lintegral_eq_one (F : Fns ℝ) (hG : LnGammaOK F) (α β : ℝ) (hα : 0 < α) (hβ : 0 < β) :
+    ∫⁻ x, ENNReal.ofReal (Beta.pdf F α β x) = 1 := by
   rw [← lintegral_betaPDF_eq_one hα hβ]
   apply MeasureTheory.lintegral_congr_ae
   have h0 : ∀ᵐ x : ℝ, x ≠ 0 := MeasureTheory.compl_mem_ae_iff.mpr (MeasureTheory.measure_singleton 0)
   have h1 : ∀ᵐ x : ℝ, x ≠ 1 := MeasureTheory.compl_mem_ae_iff.mpr (MeasureTheory.measure_singleton 1)
   filter_upwards [h0, h1] with x hx0 hx1
-  rw [beta_pdf_eq_betaPDFReal erf α β x hx0 hx1, betaPDF]
+  rw [beta_pdf_eq_betaPDFReal F hG α β x hα hβ hx0 hx1, betaPDF]
+
+example : ∫⁻ x, ENNReal.ofReal (Beta.pdf RF 100 100 x) = 1 :=
+  beta_pdf_lintegral_eq_one RF (realFns_lnGammaOK erf) 100 100 (by norm_num) (by norm_num)
 
 /-! ## Pareto -/
 
